@@ -41,6 +41,12 @@ def call_real(inp, animals):
     sigma = inp["sn"] / inp["sd"]
     nodes = inp["nodes"]
     pts = lattice_tensor([inp["pts"][a] for a in animals], 2).reshape(1, len(animals), nodes, 2)
+    # "mag": the same scene magnified K times (image, stride, keypoints and sigma all x K; exact in float32).  The field is
+    # scale-covariant, so the judged case is unchanged - but the real code now works at image-scale coordinates (up to
+    # 2048 px), where float32 round-off of a badly conditioned formula shows.
+    K = int(inp.get("mag", 1))
+    if K != 1:
+        H, W, s, sigma, pts = H * K, W * K, s * K, sigma * K, pts * K
     edge_inds = torch.tensor(inp["edges"], dtype=torch.int64).reshape(-1, 2)
     E = len(inp["edges"])
     if api == "pipe":
@@ -67,12 +73,12 @@ def call_real(inp, animals):
 _PIPE_N = [0]
 
 
-def make_input(fam, api, H, W, s, sig, nodes, edges, pts):
+def make_input(fam, api, H, W, s, sig, nodes, edges, pts, mag=1):
     spos = 0
     if api == "pipe":
         _PIPE_N[0] += 1
         spos = _PIPE_N[0] % 3
-    return dict(fam=fam, api=api, H=H, W=W, s=s, sn=sig[0], sd=sig[1], nodes=nodes, edges=edges, pts=pts, spos=spos)
+    return dict(fam=fam, api=api, H=H, W=W, s=s, sn=sig[0], sd=sig[1], nodes=nodes, edges=edges, pts=pts, spos=spos, mag=mag)
 
 
 def observe(inputs, rng, with_singles=True):
@@ -249,6 +255,8 @@ def random_frames(rng, budget):
         pts = [random_animal(rng, W, H, s, nodes, rng.choice(("in", "in", "in", "outside", "margin"))) for _ in range(A)]
         api = rng.choice(("fn", "fn", "pipe", "fn4"))
         inputs.append(make_input("random", api, H, W, s, rng.choice(SIGMAS), nodes, edges, pts))
+        if rng.random() < 0.3:
+            inputs[-1]["mag"] = rng.choice((16, 32))
         used += (A + (A > 1)) * len(edges) * (H // s) * (W // s)
     return inputs
 
@@ -269,6 +277,8 @@ def count_clauses(res, cases, stats):
         res.coverage["cells_judged"] = res.coverage.get("cells_judged", 0) + cells
         res.clause("kind_" + c["kind"])
         res.clause("api_" + c["api"])
+        if c.get("mag", 1) != 1:
+            res.clause("case_magnified_to_image_scale_coordinates")
         res.clause("stride_%d" % c["s"])
         if c["kind"] == "multi":
             res.clause("multi_animals_%d" % len(c["pts"]))
@@ -301,7 +311,7 @@ def count_clauses(res, cases, stats):
             stats["nontrivial"].add(hash(json.dumps([c["H"], c["W"], c["s"], c["edges"], c["pts"]])))
 
 
-CASE_FIELDS = ("fam", "api", "H", "W", "s", "sn", "sd", "nodes", "edges", "spos")
+CASE_FIELDS = ("fam", "api", "H", "W", "s", "sn", "sd", "nodes", "edges", "spos", "mag")
 
 
 def judge_round(res, name, inputs, note, stats, rng):
